@@ -91,6 +91,9 @@ pub struct LspServer {
     stdin: std::process::ChildStdin,
     stdout: std::io::BufReader<std::process::ChildStdout>,
     opened_uris: Vec<usize>,
+    /// the version the client last sent for each open document: it grows with every change and starts again at 1 when the
+    /// document is opened again, as editors do
+    versions: std::collections::HashMap<usize, u64>,
     next_id: u64,
 }
 
@@ -118,7 +121,7 @@ impl LspServer {
             .ok()?;
         let stdin = child.stdin.take()?;
         let stdout = std::io::BufReader::new(child.stdout.take()?);
-        let mut s = LspServer { child, stdin, stdout, opened_uris: vec![], next_id: 1 };
+        let mut s = LspServer { child, stdin, stdout, opened_uris: vec![], versions: Default::default(), next_id: 1 };
         s.send(&format!(r#"{{"jsonrpc":"2.0","id":0,"method":"initialize","params":{}}}"#, params));
         // the initialize response; a server that announces another position encoding than UTF-16 is not what this harness measures
         let hello = s.read_message()?;
@@ -183,6 +186,7 @@ impl LspServer {
                 self.send(&format!(r#"{{"jsonrpc":"2.0","method":"textDocument/didClose","params":{{"textDocument":{{"uri":"{}"}}}}}}"#, uri));
             }
             self.opened_uris.retain(|x| *x != k);
+            self.versions.remove(&k);
         }
     }
     pub fn document_at(&mut self, k: usize, text: &str) -> Option<(serde_json::Value, serde_json::Value)> {
@@ -191,10 +195,13 @@ impl LspServer {
         if !self.opened_uris.contains(&k) {
             self.send(&format!(r#"{{"jsonrpc":"2.0","method":"textDocument/didOpen","params":{{"textDocument":{{"uri":"{}","languageId":"abasic","version":1,"text":{}}}}}}}"#, uri, t));
             self.opened_uris.push(k);
+            self.versions.insert(k, 1);
         } else {
+            let v = self.versions.get(&k).copied().unwrap_or(1) + 1 + (text.len() % 2) as u64;
+            self.versions.insert(k, v);
             // a notification may carry several changes; they apply in order, so the last one is the document
             let stale = if text.len() % 3 == 0 { r#"{"text":"10 PRINT \"stale\n20 GOTO 77"},"# } else { "" };
-            self.send(&format!(r#"{{"jsonrpc":"2.0","method":"textDocument/didChange","params":{{"textDocument":{{"uri":"{}","version":2}},"contentChanges":[{}{{"text":{}}}]}}}}"#, uri, stale, t));
+            self.send(&format!(r#"{{"jsonrpc":"2.0","method":"textDocument/didChange","params":{{"textDocument":{{"uri":"{}","version":{}}},"contentChanges":[{}{{"text":{}}}]}}}}"#, uri, v, stale, t));
         }
         let id = self.next_id;
         self.next_id += 1;
@@ -207,6 +214,11 @@ impl LspServer {
                 diags = Some(m["params"]["diagnostics"].clone());
             } else if m.get("id").and_then(|x| x.as_u64()) == Some(id) {
                 toks = Some(m["result"]["data"].clone());
+                // the server answers in order: a reply to the request that FOLLOWED the notification with no diagnostics
+                // before it means the notification was not answered at all
+                if diags.is_none() {
+                    diags = Some(serde_json::Value::Null);
+                }
             }
         }
         Some((diags?, toks?))
@@ -594,7 +606,11 @@ impl Session {
                             .as_array()
                             .map(|a| a.chunks(5).map(|c| format!("{},{},{},{}", c[0], c[1], c[2], c[3])).collect())
                             .unwrap_or_default();
-                        format!("D {} ; S {}", ds.join(" "), ts.join(" "))
+                        if diags.is_null() {
+                            format!("NODIAG ; S {}", ts.join(" "))
+                        } else {
+                            format!("D {} ; S {}", ds.join(" "), ts.join(" "))
+                        }
                     }
                 }
             }
